@@ -1326,7 +1326,8 @@ func (client *client) disconnectHandler(dis *packets.Disconnect) *codes.Error {
 	}
 	client.disconnect = dis
 	// 不发送will message
-	client.cleanWillFlag = true
+	// DISCONNECT with reason code 0x04 (Disconnect with Will Message) asks the server to publish the will message.
+	client.cleanWillFlag = !(client.version == packets.Version5 && dis.Code == codes.DisconnectWithWillMessage)
 	return nil
 }
 
